@@ -242,6 +242,22 @@ def run_case(run, spec):
     if n > 0:
         run.count("negatives_checked", 0 if balanced else min(n, 60))
 
+    # ---- a shallow copy of a subset layer with other indices addresses its own samples (nothing of the original sticks to the copy)
+    if not balanced and n > 1 and spec["stack"]["k"] in ("kdsubset", "subsetw_idx", "subsetw_range", "shuffle", "repeat", "percent", "classfilter"):
+        import copy
+        perm = [int(i) for i in rng.permutation(n)][: max(1, n - 1)]
+        base_idx = [int(i) for i in ds.indices]
+        def clone():
+            c = copy.copy(ds)
+            c.indices = [base_idx[j] for j in perm]
+            return [c.getitem_x(j) for j in range(len(perm))]
+        ok, got = call_real(run, clone, what="copy.copy(subset) with new indices")
+        if not ok:
+            return
+        run.count("getitem_checked", len(perm))
+        if got != [_expect_token(model[j]) for j in perm]:
+            run.violation("copied-subset-uses-stale-state", f"a shallow copy of the top subset layer with re-ordered indices returns {_short(got[:4])}…, its own index map gives {_short([_expect_token(model[j]) for j in perm][:4])}…")
+            return
     # ---- bulk == per-sample (getall_class; via the attribute and via utils.getall_as_tensor helpers)
     if not balanced:
         want = [m[3] for m in model]
@@ -325,6 +341,9 @@ def run_case(run, spec):
             return
         ok, got = call_real(run, lambda: ds.leaf_marker, what="attribute delegation")
         if not ok or not chk("attribute-delegation", got, leaf.leaf_marker):
+            return
+        ok, got = call_real(run, lambda: ds.class_names, what="attribute delegation (class_names)")
+        if not ok or not chk("attribute-delegation:class_names", got, leaf.class_names):
             return
         ok, got = call_real(run, lambda: (ds.getshape_class(), ds.getdim_class(), ds.getshape("class"), ds.getdim("class")), what="shape delegation")
         nc = leaf.getshape_class()
